@@ -394,6 +394,61 @@ func (c *Ctx) annotationKeys() {
 		})
 	}
 	c.Floor("C19.3-annotation-accesses", n, 8)
+	// the setters always write: every successful exit has passed the key's delete or store and SetAnnotations
+	for _, fname := range []string{"SetDeleteSlots", "SetPausedReconcile"} {
+		fi := c.Func(load.HelperPkg, fname)
+		if fi == nil {
+			continue
+		}
+		fn, _ := c.Analysis(fi)
+		info := fi.Pkg.TypesInfo
+		var setCall *ast.CallExpr
+		var keyOps []ast.Node
+		ast.Inspect(fi.Decl.Body, func(x ast.Node) bool {
+			switch y := x.(type) {
+			case *ast.CallExpr:
+				if sel, ok := y.Fun.(*ast.SelectorExpr); ok && sel.Sel.Name == "SetAnnotations" {
+					setCall = y
+				}
+				if id, ok := y.Fun.(*ast.Ident); ok && id.Name == "delete" {
+					keyOps = append(keyOps, y)
+				}
+			case *ast.AssignStmt:
+				if len(y.Lhs) == 1 {
+					if _, ok := y.Lhs[0].(*ast.IndexExpr); ok {
+						keyOps = append(keyOps, y)
+					}
+				}
+			}
+			return true
+		})
+		check := func(stops []ast.Node, what string) {
+			aU := fn.FromUntil(fi.Decl.Body.List[0], gf.TrueState(), stops...)
+			bad := false
+			ast.Inspect(fi.Decl.Body, func(x ast.Node) bool {
+				if r, ok := x.(*ast.ReturnStmt); ok && aU.StateBefore(r).Reachable() {
+					// an error return is fine
+					if len(r.Results) == 1 {
+						if good, _ := aU.StateBefore(r).Implies(gf.FNotNil(fn.Term(r.Results[0]))); good && !isNilExpr(info, r.Results[0]) {
+							return true
+						}
+					}
+					bad = true
+				}
+				return true
+			})
+			if ir := fn.ImplicitReturn(); ir != nil && aU.StateBefore(ir).Reachable() {
+				bad = true
+			}
+			c.Check(!bad && len(stops) > 0, "C19.3-setter-always-writes", fname+": "+what, fi.Decl.Pos(), "no successful return is reachable without "+what, fname+" can return successfully without "+what+": the requested value is not written (e.g. an empty set does not remove the annotation)")
+		}
+		if setCall != nil {
+			check([]ast.Node{setCall}, "SetAnnotations")
+		} else {
+			c.Bad("C19.3-setter-always-writes", fname, fi.Decl.Pos(), "no SetAnnotations call")
+		}
+		check(keyOps, "the delete or store of its key")
+	}
 	// AddDeleteSlots goes through Get/Set
 	if fi := c.Func(load.HelperPkg, "AddDeleteSlots"); fi != nil {
 		reach := c.G.ReachDirect(fi.Obj)
@@ -590,6 +645,7 @@ func (c *Ctx) defaulterDiscipline() {
 			}
 			return true
 		})
+		c.noLateDependency(fi, fn)
 		// appends and increments in defaulters are never idempotent unless guarded
 		ast.Inspect(fi.Decl.Body, func(n ast.Node) bool {
 			if inc, ok := n.(*ast.IncDecStmt); ok {
@@ -657,4 +713,127 @@ func stateIndependent(info *types.Info, e ast.Expr, fresh map[types.Object]bool)
 		}
 	}
 	return false
+}
+
+// noLateDependency: clause (c) of C19.5. A field read by the guard of a store
+// (other than the store's own target) and written in the same function must be
+// written on a path that leads to that guard: a write in a branch that is
+// exclusive with the guard (or after it) can flip the guard on the next pass.
+func (c *Ctx) noLateDependency(fi *load.FuncInfo, fn *gf.Fn) {
+	info := fi.Pkg.TypesInfo
+	fieldOf := func(e ast.Expr) string {
+		sel, ok := ast.Unparen(e).(*ast.SelectorExpr)
+		if !ok {
+			return ""
+		}
+		if s, ok := info.Selections[sel]; ok && s.Kind() == types.FieldVal {
+			return gf.OwnerName(info.TypeOf(sel.X)) + "." + sel.Sel.Name
+		}
+		return ""
+	}
+	// writes by field
+	type wr struct {
+		stmt ast.Stmt
+		f    string
+	}
+	var writes []wr
+	ast.Inspect(fi.Decl.Body, func(n ast.Node) bool {
+		if as, ok := n.(*ast.AssignStmt); ok {
+			for _, l := range as.Lhs {
+				if f := fieldOf(l); f != "" {
+					writes = append(writes, wr{as, f})
+				}
+			}
+		}
+		return true
+	})
+	if len(writes) == 0 {
+		return
+	}
+	// guards: conditions of if statements and switch tags/cases enclosing a store
+	type gcond struct {
+		cond   ast.Expr
+		region ast.Node
+	}
+	type guard struct {
+		cond   ast.Expr
+		region ast.Node
+		store  *ast.AssignStmt
+	}
+	var guards []guard
+	var walk func(n ast.Node, conds []gcond)
+	walk = func(n ast.Node, conds []gcond) {
+		switch x := n.(type) {
+		case *ast.IfStmt:
+			walk(x.Body, append(append([]gcond{}, conds...), gcond{x.Cond, x}))
+			if x.Else != nil {
+				walk(x.Else, append(append([]gcond{}, conds...), gcond{x.Cond, x}))
+			}
+			return
+		case *ast.SwitchStmt:
+			for _, cc := range x.Body.List {
+				cl := cc.(*ast.CaseClause)
+				cs := append([]gcond{}, conds...)
+				if x.Tag != nil {
+					cs = append(cs, gcond{x.Tag, cl})
+				}
+				for _, e := range cl.List {
+					cs = append(cs, gcond{e, cl})
+				}
+				for _, s := range cl.Body {
+					walk(s, cs)
+				}
+			}
+			return
+		case *ast.AssignStmt:
+			for _, cnd := range conds {
+				guards = append(guards, guard{cnd.cond, cnd.region, x})
+			}
+			return
+		case *ast.BlockStmt:
+			for _, s := range x.List {
+				walk(s, conds)
+			}
+			return
+		case *ast.ForStmt:
+			walk(x.Body, conds)
+			return
+		case *ast.RangeStmt:
+			walk(x.Body, conds)
+			return
+		}
+	}
+	walk(fi.Decl.Body, nil)
+	reported := map[string]bool{}
+	for _, g := range guards {
+		own := ""
+		if len(g.store.Lhs) == 1 {
+			own = fieldOf(g.store.Lhs[0])
+		}
+		reads := map[string]bool{}
+		ast.Inspect(g.cond, func(n ast.Node) bool {
+			if e, ok := n.(ast.Expr); ok {
+				if f := fieldOf(e); f != "" && f != own {
+					reads[f] = true
+				}
+			}
+			return true
+		})
+		for _, w := range writes {
+			if !reads[w.f] || w.stmt == ast.Stmt(g.store) || contains(g.region, w.stmt) {
+				continue // a write inside the region this guard governs is part of the guarded action itself
+			}
+			// the guard must be reachable from the write (the write happens before the guard is evaluated)
+			a := fn.FromAfter(w.stmt, gf.TrueState())
+			before := a.StateAtExpr(g.cond).Reachable() || contains(w.stmt, g.cond)
+			key := fmt.Sprintf("%s|%d|%d", w.f, w.stmt.Pos(), g.cond.Pos())
+			if reported[key] {
+				continue
+			}
+			reported[key] = true
+			name := fmt.Sprintf("%s: guard `%s` reads %s", fi.Obj.Name(), clip(types.ExprString(g.cond), 50), w.f)
+			c.Check(before, "C19.5-no-late-dependency", name, g.cond.Pos(), "the write to that field in this function happens on a path leading to the guard",
+				"the field is written at "+c.P.Pos(w.stmt.Pos())+" in a branch that does not lead to this guard: a second defaulting pass can take a different branch (defaulting twice != once)")
+		}
+	}
 }
